@@ -54,7 +54,7 @@ MAIN_KINDS = (
     "tn-ahead", "tn-sync", "tn-latency", "tn-boundary", "tn-late", "tn-forged-key", "tn-forged-bit", "tn-forged-late",
     "w-ahead", "w-sync", "w-latency", "w-boundary", "w-late", "w-late", "w-forged-key", "w-forged-bit", "w-forged-late", "w-other-session", "w-nested", "w-forbidden",
     "w-busy", "w-lost", "w-search", "plain", "plain", "plain", "plain-unknown", "garbage", "echo-own", "echo-foreign", "send", "send", "send", "idle-short", "idle-long",
-    "tn-own-identity", "plain-malformed", "plain-malformed", "w-inner-malformed", "w-inner-malformed", "w-inner-garbage",
+    "tn-own-identity", "w-busy-fade-out", "w-busy-fade-out", "plain-malformed", "plain-malformed", "w-inner-malformed", "w-inner-malformed", "w-inner-garbage",
 )
 NO_DIB = tuple(n for n in all_body_class_names() if n not in ("SearchResponse", "SearchResponseExtended", "DescriptionResponse", "SearchRequestExtended"))
 
@@ -87,6 +87,7 @@ def run_history(ctx, spec):
     kinds: list[str] = []
     trace: list[dict] = []
     unauth_identities: dict[tuple[bytes, bytes], str] = {}
+    auth_identities: set[tuple[bytes, bytes]] = set()  # an update notify may legitimately answer these
     st = {"synced_at": None, "routing": None, "last_tx": None}
 
     def cb(frame, source, transport):
@@ -125,6 +126,9 @@ def run_history(ctx, spec):
         tr = listener if sock == "listener" else unicast
         if tr.closed:
             return
+        inner = cls.get("inner")
+        if cls["kind"] == "wrapper" and cls["authentic"] and inner and ref.service_of(inner) == 0x0532 and len(inner) >= 10:
+            st["max_busy_wait"] = max(st.get("max_busy_wait", 0), int.from_bytes(inner[8:10], "big"))
         tmr = timer()
         reported = tmr.current_timer_value()
         local = model_local(tmr)
@@ -220,7 +224,9 @@ def run_history(ctx, spec):
                 f = ref.TimerNotifyFields(raw)
                 timer_value, serial, tag = f.timer, f.serial, f.tag
         authentic = ref.timer_notify_valid(key, raw)
-        if not authentic and (serial, tag) != our_sync_identity():
+        if authentic:
+            auth_identities.add((serial, tag))
+        elif (serial, tag) != our_sync_identity():
             unauth_identities[(serial, tag)] = "timer-notify"
         return raw, {"kind": "tn", "authentic": authentic, "timer": timer_value, "service": 0x0955}
 
@@ -243,7 +249,9 @@ def run_history(ctx, spec):
         c = peer.classify(raw)
         if c["kind"] != "wrapper":
             return raw, {"kind": "garbage", "authentic": False, "timer": None, "service": None}
-        if not c["authentic"]:
+        if c["authentic"]:
+            auth_identities.add((c["serial"], c["tag"]))
+        else:
             unauth_identities[(c["serial"], c["tag"])] = "wrapper"
         return raw, {
             "kind": "wrapper", "authentic": c["authentic"], "timer": c["timer"], "service": 0x0950, "inner": c["inner"],
@@ -343,6 +351,20 @@ def run_history(ctx, spec):
             inject(kind, *wrapper(local + 5, inner=ref.header(svc, 6 + len(body)) + body, unforwardable=True))
         elif kind == "w-busy":
             inject(kind, *wrapper(local + rng.choice((0, 5)), inner=KNXIPFrame.init_from_body(RoutingBusy(wait_time=rng.choice((0, 20, 50)))).to_knx()))
+        elif kind == "w-busy-fade-out":
+            # three authentic, timely wrapped RoutingBusy frames: #2 more than 10 ms after #1 while pausing (busy counter >= 1),
+            # #3 after sending resumed but inside the N x 100 ms slow-duration fade-out; then a send, which must still complete
+            def busy(wait):
+                return KNXIPFrame.init_from_body(RoutingBusy(wait_time=wait)).to_knx()
+
+            w1 = rng.choice((20, 40, 60))
+            inject("w-busy-1", *wrapper(model_local(tmr) + rng.choice((0, 3)), inner=busy(w1)))
+            await asyncio.sleep(rng.choice((0.011, 0.015)))
+            inject("w-busy-2-while-pausing", *wrapper(model_local(tmr) + rng.choice((0, 3)), inner=busy(rng.choice((1, w1)))))
+            await asyncio.sleep(w1 / 1000 + rng.choice((0.06, 0.08, 0.1)))
+            inject("w-busy-3-in-fade-out", *wrapper(model_local(tmr) + rng.choice((0, 3)), inner=busy(rng.choice((0, 10, 30)))))
+            ctx.count("busy_fade_out_patterns")
+            await main_event("send", routing, tmr)
         elif kind == "w-lost":
             inject(kind, *wrapper(local + rng.choice((0, 5)), inner=KNXIPFrame.init_from_body(RoutingLostMessage(lost_messages=rng.randrange(1, 100))).to_knx()))
         elif kind == "w-search":
@@ -409,6 +431,11 @@ def run_history(ctx, spec):
             except Exception as exc:  # noqa: BLE001
                 kinds.append("send-" + type(exc).__name__)
                 ctx.count("send_raised_" + type(exc).__name__)
+                if isinstance(exc, TimeoutError) and st.get("max_busy_wait", 0) < 2000:
+                    ctx.violation(
+                        "send-stalls-after-received-routing-busy", {"spec": spec, "history": trace[-12:]},
+                        "send_cemi did not complete within 5 s although no RoutingBusy announced more than 2 s",
+                    )
             txs = tx_records()
             st["last_tx"] = txs[-1][1] if txs else None
         elif kind == "idle-short":
@@ -483,7 +510,9 @@ def run_history(ctx, spec):
             if not c["authentic"]:
                 ctx.count("tx_timer_notify_not_verified_by_reference")
             ident = (c["serial"], c["tag"])
-            if ident in unauth_identities:
+            if ident in unauth_identities and ident in auth_identities:
+                ctx.count("update_notify_identity_shared_by_authentic_and_forged_frame_not_judged")
+            elif ident in unauth_identities:
                 ctx.violation(
                     f"update-notify-answers-unauthenticated-{unauth_identities[ident]}", {"spec": spec, "notify": data, "history": trace[-30:]},
                     "we sent a TimerNotify carrying serial number and tag of a frame the reference could not authenticate",
@@ -515,7 +544,7 @@ def run(ctx):
     ctx.require(
         "histories", "delivered_plain", "delivered_tn", "delivered_wrapper", "delivered_garbage", "plain_discovery_forwarded", "plain_other_dropped",
         "valid_timely_wrapper_forwarded", "late_wrapper_dropped", "unauthentic_wrapper_dropped", "tn_authentic", "tn_unauthentic",
-        "timer_moved_by_tn", "timer_moved_by_wrapper", "malformed_injected", "tx_wrappers", "tx_timer_notifies", "synchronised_as_timekeeper", "synchronised_as_follower", "sends",
+        "timer_moved_by_tn", "timer_moved_by_wrapper", "malformed_injected", "busy_fade_out_patterns", "tx_wrappers", "tx_timer_notifies", "synchronised_as_timekeeper", "synchronised_as_follower", "sends",
     )
     n = ctx.scale(700, 200000)
     for i in range(n):
